@@ -403,6 +403,10 @@ class _Recorder(object):
     from scales.message import TimeoutError as STimeout
     ex = ar.exception
     if ar.successful() and ex is None:
+      if isinstance(ar.value, BaseException):
+        # an exception object handed over as the call's value (what the unchanged serializer does with a reply
+        # whose result struct is empty, DESIGN 0.7 iv): the caller got an error, not a value of another call
+        return 'error', 0
       return 'value', 1 if ar.value == 'echo:' + self.args.get(c, 'c%d' % c) else 0
     if isinstance(ex, STimeout):
       return 'timeout', 0
